@@ -106,7 +106,10 @@ def run_property(prop: str, tier: str, rules_fn: Callable, A_factory: Callable, 
         A = A_factory()
         rep = Report(prop, A)
         rules_fn(A, rep, tier)
-        rep.finish_counts()
+        if not rep.violations:
+            # non-vacuity is only meaningful when nothing was reported: a rule that
+            # reported a violation legitimately skips its dependent obligations
+            rep.finish_counts()
     except AnalysisError as ex:
         print("ANALYSIS-ERROR property=%s %s" % (prop, ex))
         return 2
